@@ -1,2 +1,59 @@
-(* C04 -- theorem statements are being added; see DESIGN.md. *)
-From HS Require Import Lib.Base.
+(* C04 -- conditional headers follow RFC 7232 precedence and comparison functions. *)
+From HS Require Import Lib.Base Lib.Bytes Model.Etag Model.Serve Spec.Validators Proofs.EtagP Proofs.ServeP Proofs.DecisionP.
+
+(* Tag lists are matched element by element: the byte-level iterator applied to the rendering of
+   any list of tags -- any length, any OWS after the commas, tag contents with commas and spaces,
+   anything but a double quote -- yields exactly those tags in order, not corrupt. *)
+Theorem c04_list : forall t l, tag_ok t -> Forall elem_ok l ->
+  etag_list (render_tag_list (TList t l)) = (map render_tag (tags_of (TList t l)), false).
+Proof. exact etag_list_tags. Qed.
+
+(* the byte-level comparisons are RFC 7232's strong and weak comparison functions *)
+Theorem c04_strong_eq : forall a b, strong_eq (render_tag a) (render_tag b) = strong_eq_spec a b.
+Proof. exact strong_eq_render. Qed.
+Theorem c04_weak_eq : forall a b, weak_eq (render_tag a) (render_tag b) = weak_eq_spec a b.
+Proof. exact weak_eq_render. Qed.
+
+(* With well-formed validators (entity tag, If-Match / If-None-Match lists or "*", parseable
+   dates), for GET and HEAD: 412 exactly when `decide` says D412, else 304 exactly when D304, else
+   neither (range selection runs). `decide` is the property's sentence over ASTs: If-Match by strong
+   comparison ("*" passes), else If-Unmodified-Since earlier than the modification second;
+   If-None-Match by weak comparison ("*" matches), else modification second <= If-Modified-Since. *)
+Theorem c04_decision : forall fmt_date parse_date now (et : option tag) ent req r im inm ims ius,
+  e_len ent < U64 -> e_etag ent = option_map render_tag et -> is_get_or_head req ->
+  wf_conds parse_date req im inm ims ius ->
+  serve_model fmt_date parse_date now ent req = Ok r ->
+  match decide et (option_map (fun m => m / NS) (e_lm ent)) im inm ims ius with
+  | D412 => status r = 412
+  | D304 => status r = 304
+  | DContinue => ~ In (status r) [400; 412; 304]
+  end.
+Proof. exact conditional_decision. Qed.
+
+(* the "ignored whenever" clauses are read off `decide` *)
+Theorem c04_ims_ignored_with_inm : forall et lm im inm ims ims' ius, inm <> None ->
+  decide et lm im inm ims ius = decide et lm im inm ims' ius.
+Proof. intros et lm im inm ims ims' ius H. destruct inm as [l|]; [|congruence]. unfold decide, not_modified. destruct l; reflexivity. Qed.
+Theorem c04_ius_ignored_with_im : forall et lm im inm ims ius ius', im <> None ->
+  decide et lm im inm ims ius = decide et lm im inm ims ius'.
+Proof. intros et lm im inm ims ius ius' H. destruct im as [l|]; [|congruence]. unfold decide, precondition_fails. destruct l; reflexivity. Qed.
+Theorem c04_dates_ignored_without_mtime : forall et im inm ims ius ims' ius',
+  decide et None im inm ims ius = decide et None im inm ims' ius'.
+Proof. intros. unfold decide, precondition_fails, not_modified. destruct im as [[|]|], inm as [[|]|]; reflexivity. Qed.
+
+(* the pinned tree compared at nanosecond resolution: echoing the served second was "earlier" *)
+Example c04_legacy_refuted :
+  let req := {| r_meth := GET; r_range := None; r_if_range := None; r_if_match := None; r_inm := None;
+                r_ims := None; r_ius := Some [65] |} in
+  let parse := fun _ : bytes => Some 784111777 in
+  parse_modified_hdrs_legacy parse None req (Some 784111777500000000) = COk true false /\
+  parse_modified_hdrs parse None req (Some 784111777500000000) = COk false false.
+Proof. vm_compute. split; reflexivity. Qed.
+
+Print Assumptions c04_list.
+Print Assumptions c04_strong_eq.
+Print Assumptions c04_weak_eq.
+Print Assumptions c04_decision.
+Print Assumptions c04_ims_ignored_with_inm.
+Print Assumptions c04_ius_ignored_with_im.
+Print Assumptions c04_dates_ignored_without_mtime.
